@@ -155,6 +155,10 @@ class Renderer:
         if k == "q":
             _, tagref, anchor, items = n
             p = self.props(tagref, anchor, ctx, consumed)
+            if tagref in (("core", "omap"), ("core", "pairs")):
+                # a sequence written with the core tag !!omap / !!pairs IS an omap / pairs: the constructor looks into its
+                # entry mappings structurally (their own tag is not dispatched on), keys and values are constructed normally
+                return p + "[" + ", ".join(self.node(c, "%s-entry" % tagref[1], consumed=(c[0] == "m")) for c in items) + "]"
             return p + "[" + ", ".join(self.node(c, "item") for c in items) + "]"
         if k == "m":
             _, tagref, anchor, pairs = n
